@@ -10,25 +10,26 @@ import "verifharness/vrt"
 // programs polynomial while every construct is seen with output before it and
 // an observation after it.
 type Profile struct {
-	Ifs     bool // <%= if %> with printing blocks, else, else-if
-	Ctl     bool // silent ifs holding break / continue / return / let
-	Bare    bool // bare break / continue (what follows is dead)
-	Loops   bool // nested loops
-	Iters   int  // kinds of iterable a nested loop may use (1..7)
-	Lets    bool // let / reads of the let-bound name v
-	Assigns bool // assignment to an existing name
-	Calls   bool // calls of the user function f (when one is defined)
-	Unknown bool // the unbound name u in tolerant positions
-	Faults  bool // failing operations in value positions
-	Shadow  bool // loop variables / lets named like outer names
-	Conds   int  // size of the condition menu (0 = all)
-	Vals    int  // size of the value menu (0 = all)
-	Pres    int  // size of the pre menu (0 = all)
-	Posts   int  // size of the post menu (0 = all)
-	Leafs   int  // size of the leaf menu (0 = all)
-	Elifs   bool // else-if arms
-	Hits    bool // conditions may call the recording helper hit(k)
-	NoKey   bool // loops are written without an index variable
+	Ifs      bool // <%= if %> with printing blocks, else, else-if
+	Ctl      bool // silent ifs holding break / continue / return / let
+	Bare     bool // bare break / continue (what follows is dead)
+	Loops    bool // nested loops
+	Iters    int  // kinds of iterable a nested loop may use (1..7)
+	Lets     bool // let / reads of the let-bound name v
+	Assigns  bool // assignment to an existing name
+	Calls    bool // calls of the user function f (when one is defined)
+	Unknown  bool // the unbound name u in tolerant positions
+	Faults   bool // failing operations in value positions
+	Shadow   bool // loop variables / lets named like outer names
+	Conds    int  // size of the condition menu (0 = all)
+	Vals     int  // size of the value menu (0 = all)
+	Pres     int  // size of the pre menu (0 = all)
+	Posts    int  // size of the post menu (0 = all)
+	Leafs    int  // size of the leaf menu (0 = all)
+	Elifs    bool // else-if arms
+	Hits     bool // conditions may call the recording helper hit(k)
+	NoKey    bool // loops are written without an index variable
+	LetConds bool // conditions may test the let-bound name v; a block may end by binding it
 }
 
 // Cx is the syntactic context a block is generated for.
@@ -124,6 +125,9 @@ func (g *G) Cond(c Cx) *Expr {
 		m = append(m, Var("u"))
 	}
 	m = append(m, Var(c.Inner), Lt(Var(c.Inner), Var("t")))
+	if g.P.LetConds {
+		m = append([]*Expr{Var("v")}, m...) // is the let-bound name set? (first, so that a small menu keeps it)
+	}
 	if g.P.Unknown {
 		m = append(m, Not(Var("u")), Or(Var("u"), Eq(Var(c.Inner), Var("t"))))
 	}
@@ -186,6 +190,9 @@ func (g *G) post(c Cx) []*Stmt {
 		}
 	} else {
 		m = append(m, []*Stmt{Return(g.Val(c))})
+	}
+	if g.P.LetConds && !c.Fn {
+		m = append([][]*Stmt{{Let("v", Var(c.Inner))}}, m...)
 	}
 	return pickBlock(m, g.P.Posts)
 }
